@@ -395,6 +395,8 @@ func call(i *interpreter, caller *frame, callpos token.Pos, fn value, args []val
 		return callSSA(i, caller, callpos, fn.Fn, args, fn.Env)
 	case *ssa.Builtin:
 		return callBuiltin(caller, callpos, fn, args)
+	case nativeFn:
+		return fn(caller, args)
 	}
 	panic(fmt.Sprintf("cannot call %T", fn))
 }
